@@ -1,4 +1,5 @@
 import PsVerif.Generated.Ranking
+#print axioms PsVerif.Gen.pipe_ssporFit
 #print axioms PsVerif.Gen.selection_predict_0
 #print axioms PsVerif.Gen.selection_predict_1
 #print axioms PsVerif.Gen.selection_predict_2
